@@ -39,9 +39,20 @@ func FBP(reftree *tree.Tree, boottrees <-chan tree.Trees, cpus int, sup *Support
 		}
 	}
 	var wg sync.WaitGroup
+	var errmux sync.Mutex
+	// Keeps the first error met by any worker
+	seterr := func(e error) {
+		errmux.Lock()
+		if err == nil {
+			err = e
+		}
+		errmux.Unlock()
+	}
 	for cpu := 0; cpu < cpus; cpu++ {
 		wg.Add(1)
 		go func(cpu int) {
+			// Every exit path must signal completion, otherwise the caller waits forever
+			defer wg.Done()
 			var inerr error
 			for treeV := range boottrees {
 				edgeIndex := tree.NewEdgeIndex(uint64(len(edges)*2), 0.75)
@@ -49,15 +60,15 @@ func FBP(reftree *tree.Tree, boottrees <-chan tree.Trees, cpus int, sup *Support
 					break
 				}
 				if treeV.Err != nil {
-					err = treeV.Err
+					seterr(treeV.Err)
 					return
 				} else {
 					if inerr = treeV.Tree.ReinitIndexes(); err != nil {
-						err = inerr
+						seterr(inerr)
 						return
 					}
 					if inerr = reftree.CompareTipIndexes(treeV.Tree); err != nil {
-						err = inerr
+						seterr(inerr)
 						return
 					}
 					atomic.AddInt32(&ntrees, 1)
@@ -65,7 +76,7 @@ func FBP(reftree *tree.Tree, boottrees <-chan tree.Trees, cpus int, sup *Support
 					for i, e2 := range edges2 {
 						if !e2.Right().Tip() {
 							if inerr = edgeIndex.PutEdgeValue(e2, i, e2.Length()); inerr != nil {
-								err = inerr
+								seterr(inerr)
 								return
 							}
 						}
@@ -79,7 +90,6 @@ func FBP(reftree *tree.Tree, boottrees <-chan tree.Trees, cpus int, sup *Support
 				}
 				sup.IncrementProgress()
 			}
-			wg.Done()
 		}(cpu)
 	}
 
